@@ -8,14 +8,15 @@ import sparrowpy as sp
 from sparrowpy.classes.RadiosityKang import PatchesKang, RadiosityKang
 
 NOT_CARRIED = [
-    "cyclic axis permutation of the two scalar formulas (calculate_form_factor, _init_energy_exchange): "
-    "C19_cyclic_partial proves that centre-to-centre distances, delays and the direct-sound terms are "
-    "invariant and (C19_recursion_data) that the recursion depends on the geometry only through "
-    "form factors, order-0 energies and delays; the invariance of the sqrt/atan formulas under the "
-    "cyclic maps (a case analysis on the normal axis) is not proved -- it is tested on every scene case",
-    "under a cyclic axis permutation PatchesKang enumerates the patches of some walls in transposed order, "
-    "so E_matrix is invariant only up to that relabelling of patches (matched by patch centre in the test); "
-    "the receiver response is invariant as stated",
+    "cyclic axis permutation: C19_cyclic proves the invariance of form factors, order-0 energies, every "
+    "order and the response for the MODEL, where the patch order of each wall is data and the permuted "
+    "scene keeps that order; PatchesKang itself enumerates the patches of some walls in transposed order "
+    "after the permutation, so the implementation's E_matrix is invariant only up to that relabelling of "
+    "patches (the test matches patches by centre; the tiling is the subject of C08); the receiver "
+    "response is invariant as stated",
+    "C19_cyclic assumes an axis-aligned scene (exactly one normal component above the thresholds, "
+    "orthogonal walls with different normal axes, centres of parallel walls differing along one axis) -- "
+    "true of every shoebox wall subset; other geometries hit the AssertionError branches of the code",
     "float rounding: theorems hold in every commutative (ordered) ring instance of Ops; 'up to rounding' is "
     "the 1e-9 relative tolerance of the tests",
 ]
